@@ -30,6 +30,7 @@ mod c14;
 mod c15;
 mod c16;
 mod c17;
+mod c18;
 mod faults;
 
 use engine::{Property, RunCfg, Tier};
@@ -68,6 +69,7 @@ fn build(id: &str, ctx: &Ctx) -> Option<Property> {
         "C15" => c15::build(ctx),
         "C16" => c16::build(ctx),
         "C17" => c17::build(ctx),
+        "C18" => c18::build(ctx),
         _ => return None,
     })
 }
